@@ -1028,11 +1028,27 @@ func (g *gen) instance(p *pattern, pInconsistent float64) string {
 }
 
 // embed places fragments into a file.
-func (g *gen) fileWith(p *pattern, frags []string) string {
+func (g *gen) fileWith(p *pattern, frags []string, pkg string, imports []string) string {
 	var sb strings.Builder
-	sb.WriteString("package " + g.pick("p", "main", "x") + "\n\n")
-	if g.chance(0.5) {
-		sb.WriteString("import (\n\t\"fmt\"\n\t\"os\"\n)\n\n")
+	sb.WriteString("package " + pkg + "\n\n")
+	switch {
+	case len(imports) == 0:
+	case len(imports) == 1 && g.chance(0.5):
+		sb.WriteString("import " + imports[0] + "\n\n")
+	case g.chance(0.25):
+		for _, i := range imports {
+			sb.WriteString("import " + i + "\n")
+		}
+		sb.WriteString("\n")
+	default:
+		sb.WriteString("import (\n")
+		for k, i := range imports {
+			if k > 0 && g.chance(0.2) {
+				sb.WriteString("\n")
+			}
+			sb.WriteString("\t" + i + "\n")
+		}
+		sb.WriteString(")\n\n")
 	}
 	nf := 0
 	fn := func(body string) {
@@ -1097,6 +1113,142 @@ func (g *gen) fileWith(p *pattern, frags []string) string {
 	return sb.String()
 }
 
+type importCase struct {
+	patchHead   string   // package / import lines of the patch (with diff prefixes)
+	meta        string   // extra metavariable declarations
+	filePkg     string
+	fileImports []string // import specs of the file, e.g. `f "fmt"`
+	note        string
+}
+
+var importPaths = []string{"fmt", "strings", "os", "example.com/pkg", "net/http", "example.com/lib/other"}
+
+func baseOf(path string) string {
+	if i := strings.LastIndex(path, "/"); i >= 0 {
+		return path[i+1:]
+	}
+	return path
+}
+
+// importClause decides the package/import guards of the patch and the
+// import block of the file.
+func (g *gen) importClause(p *pattern) importCase {
+	ic := importCase{filePkg: g.pick("p", "main", "x")}
+	prob := 0.25
+	switch g.mode {
+	case "c10", "c11":
+		prob = 1
+	case "c05":
+		prob = 0.5
+	}
+	// unrelated imports of the file
+	var others []string
+	for _, ip := range importPaths {
+		if g.chance(0.3) {
+			switch g.r.Intn(6) {
+			case 0:
+				others = append(others, "x"+baseOf(ip)+` "`+ip+`"`)
+			case 1:
+				others = append(others, `_ "`+ip+`"`)
+			default:
+				others = append(others, `"`+ip+`"`)
+			}
+		}
+	}
+	if !g.chance(prob) {
+		ic.fileImports = others
+		return ic
+	}
+	ic.note = " imports"
+	if g.chance(0.3) {
+		// package guard
+		pk := g.pick("p", "main", "x")
+		switch g.r.Intn(3) {
+		case 0:
+			ic.patchHead += " package " + pk + "\n"
+		case 1:
+			ic.patchHead += "-package " + pk + "\n+package " + pk + "2\n"
+		default:
+			ic.patchHead += " package " + pk + "\n"
+		}
+		if g.chance(0.7) {
+			ic.filePkg = pk
+		}
+	}
+	path := g.pick(importPaths...)
+	// remove the unrelated import of the same path, the guard decides about it
+	var rest []string
+	for _, o := range others {
+		if !strings.HasSuffix(o, `"`+path+`"`) {
+			rest = append(rest, o)
+		}
+	}
+	others = rest
+	form := func(kind int, pth string) string {
+		switch kind {
+		case 0:
+			return `"` + pth + `"`
+		case 1:
+			return baseOf(pth) + ` "` + pth + `"`
+		case 2:
+			return `alias "` + pth + `"`
+		case 3:
+			return `impname "` + pth + `"` // metavariable
+		case 4:
+			return `. "` + pth + `"`
+		default:
+			return `_ "` + pth + `"`
+		}
+	}
+	mk := g.r.Intn(7) // 6 = no minus-side import
+	pk := g.r.Intn(7)
+	usesMv := false
+	sign := g.pick("-", " ", "-")
+	if mk < 6 {
+		ic.patchHead += sign + "import " + form(mk, path) + "\n"
+		usesMv = usesMv || mk == 3
+	}
+	if sign == "-" || mk == 6 {
+		if pk < 6 && g.chance(0.7) {
+			np := path
+			if g.chance(0.6) {
+				np = g.pick(importPaths...)
+			}
+			if pk == 3 && mk != 3 {
+				pk = 0
+			}
+			ic.patchHead += "+import " + form(pk, np) + "\n"
+		}
+	}
+	if usesMv {
+		ic.meta = "var impname identifier\n"
+	}
+	ic.patchHead += "\n"
+	// file side
+	switch g.r.Intn(8) {
+	case 0: // absent
+	case 1:
+		others = append(others, form(0, path))
+	case 2:
+		others = append(others, form(1, path))
+	case 3:
+		others = append(others, form(2, path))
+	case 4:
+		others = append(others, form(4, path))
+	case 5:
+		others = append(others, form(5, path))
+	default:
+		if mk < 6 && mk != 3 {
+			others = append(others, form(mk, path))
+		} else {
+			others = append(others, form(g.r.Intn(3), path))
+		}
+	}
+	g.r.Shuffle(len(others), func(i, j int) { others[i], others[j] = others[j], others[i] })
+	ic.fileImports = others
+	return ic
+}
+
 func parses(src string) bool {
 	_, err := parser.ParseFile(token.NewFileSet(), "x.go", src, parser.SkipObjectResolution)
 	return err == nil
@@ -1140,11 +1292,24 @@ func genEngineCases(seed int64, n int, mode string) []Case {
 				frags = append(frags, g.instance(p, 0))
 			}
 		}
-		src := g.fileWith(p, frags)
+		ic := g.importClause(p)
+		src := g.fileWith(p, frags, ic.filePkg, ic.fileImports)
 		if !parses(src) {
 			continue
 		}
-		patch := "@@\n" + p.meta + "@@\n" + lineDiff(p.minus, p.plus)
+		body := lineDiff(p.minus, p.plus)
+		header := "@@\n"
+		if g.chance(0.2) {
+			header = "@ " + g.pick("fix", "rename_it", "Change1") + " @\n"
+		}
+		desc := ""
+		if g.chance(0.45) {
+			for i, k := 0, 1+g.r.Intn(3); i < k; i++ {
+				desc += g.pick("# ", "#", "#   ") + g.pick("Replace the old call", "second line", "see go/doc: x", "use new API") + "\n"
+			}
+		}
+		patch := desc + header + p.meta + ic.meta + "@@\n" + ic.patchHead + body
+		note += ic.note
 		cases = append(cases, Case{
 			ID:      fmt.Sprintf("gen/%d/%d", seed, len(cases)),
 			Patches: []string{patch},
